@@ -21,6 +21,9 @@ func init() {
 	Registry["C20"] = c20
 	Replayers["C20"] = func(rp *eng.Replay) (bool, string) {
 		fam, _ := rp.Extra["family"].(string)
+		if fam == "costgraph" {
+			return false, "cost-graph findings are re-checked by running ./check C20 (needs the whole graph)"
+		}
 		n := 0
 		if f, ok := rp.Extra["n"].(float64); ok {
 			n = int(f)
@@ -37,7 +40,8 @@ func init() {
 }
 
 // The bound that is checked: over every history prefix,
-//   total bytes allocated <= c20PerByte * total input length + c20PerCall * calls.
+//
+//	total bytes allocated <= c20PerByte * total input length + c20PerCall * calls.
 const (
 	c20PerByte = 1024
 	c20PerCall = 64 << 10
@@ -160,7 +164,7 @@ func shapeFamilies() []shapeFamily {
 		reused("reused-reader/big-object-in-array-then-small-docs", func(n int) string { return "[" + bigObject(n) + ",{}]" }, `[{"a":1},{"b":{}}]`),
 		reused("reused-reader/big-array-then-small-docs", func(n int) string { return bigArray(n, "[1]") }, `[[1],[2]]`),
 		reused("reused-reader/deep-then-small-docs", func(n int) string { return rep("[", n) + rep("]", n) }, `[[1]]`),
-		reused("reused-reader/long-escaped-string-then-small-docs", func(n int) string { return `["` + rep(`\n`, n*4) + `"]` }, `["` + "\\" + `n"]`),
+		reused("reused-reader/long-escaped-string-then-small-docs", func(n int) string { return `["` + rep(`\n`, n*4) + `"]` }, `["`+"\\"+`n"]`),
 	)
 	// reused buffer
 	fams = append(fams, shapeFamily{"reused-buffer/deep-then-small", func(n int) measure {
